@@ -572,3 +572,17 @@ func VQiRetag(tx *types.Transaction, chainID *big.Int) *types.Transaction {
 func (n *VNode) VInboundEtxs(blk *types.WorkObject) types.Transactions {
 	return rawdb.ReadInboundEtxs(n.DB[2], blk.Hash())
 }
+
+// VPrimeTerminus returns the prime terminus header the zone chain resolves for a block.
+func (n *VNode) VPrimeTerminus(blk *types.WorkObject) *types.WorkObject {
+	return n.Sl[2].hc.GetHeaderByHash(blk.PrimeTerminusHash())
+}
+
+// VParentStateSize: Quai state size of the parent of blk (used for the account-creation fee).
+func (n *VNode) VParentStateSize(blk *types.WorkObject) *big.Int {
+	p := n.Sl[2].hc.GetHeaderByHash(blk.ParentHash(2))
+	if p == nil {
+		return new(big.Int)
+	}
+	return p.QuaiStateSize()
+}
